@@ -258,7 +258,6 @@ func checkConfinement(env *core.Env, w *authWorld, hosts []*regHost, o *outReq) 
 	}
 }
 
-
 // realmMatches: sent is the named realm URL plus query parameters added by the client.
 func realmMatches(named, sent string) bool {
 	nu, err1 := url.Parse(named)
